@@ -186,4 +186,16 @@ theorem sendStored_all {P : Ev → Prop} (hP : Lax P) (c : C) (h : EvAll P c.ev)
   rw [sendStored_eq]
   exact sendStoredLoop_all hP _ (resetCount c) (by simpa using h) (by simpa using hs)
 
+/-! ### `resendStored` (fix 999e935) -/
+
+theorem resendStored_fr (c : C) : Fr c (resendStored c) :=
+  resendStored_ind (Q := fun x => Fr c x) c (sendStored_fr c) (fun h => h.trans (sendPostProcess_fr _))
+@[simp] theorem resendStored_cfg (c : C) : (resendStored c).cfg = c.cfg := (resendStored_fr c).1
+@[simp] theorem resendStored_mps (c : C) : (resendStored c).s.mpsSend = c.s.mpsSend := (resendStored_fr c).2
+
+theorem resendStored_all {P : Ev → Prop} (hP : Lax P) (c : C) (h : EvAll P c.ev)
+    (hs : ∀ x ∈ c.s.store, x.2.sz c.cfg.pw ≤ c.s.mpsSend → P (.send x.2 none)) :
+    EvAll P (resendStored c).ev :=
+  resendStored_ind (Q := fun x => EvAll P x.ev) c (sendStored_all hP c h hs) (sendPostProcess_all hP _)
+
 end MqttVerif.Conn
